@@ -56,17 +56,42 @@ def generate(h):
         h.errors.append("C11: function bodies not delimited")
         return ""
     strip = lambda s: re.sub(r"//[^\n]*", "", s)
-    l1 = re.findall(LIT, strip(f1))
-    l2 = re.findall(LIT, strip(f2))
+    f1, f2 = strip(f1), strip(f2)
     t = ""
-    if len(l1) != 3:
-        h.errors.append("C11: expected 3 failure texts in SetTestFailureByStatusCode (exit, signal, stop), found %d" % len(l1))
+    texts = {}
+    # SetTestFailureByStatusCode: each text belongs to the status test written last before it
+    for m in re.finditer(LIT, f1):
+        macros = [(f1.rfind(k, 0, m.start()), k) for k in ("WIFEXITED", "WIFSIGNALED", "WIFSTOPPED")]
+        pos, k = max(macros)
+        if pos < 0:
+            h.errors.append("C11: a failure text in SetTestFailureByStatusCode is not preceded by a WIF* test")
+            return ""
+        name = {"WIFEXITED": "msg_exit", "WIFSIGNALED": "msg_killed", "WIFSTOPPED": "msg_stopped"}[k]
+        if name in texts:
+            h.errors.append("C11: two failure texts under %s" % k)
+            return ""
+        texts[name] = m.group(1)
+    if len(texts) != 3:
+        h.errors.append("C11: expected one failure text each for exited/signaled/stopped in SetTestFailureByStatusCode, found %s" % sorted(texts))
         return ""
-    if len(l2) != 3:
-        h.errors.append("C11: expected 3 failure texts in the runner (fork, EINTR overrun, waitpid), found %d" % len(l2))
+    # the runner: the text before the waitpid call is the fork failure, the one right after the retry comparison the EINTR overrun
+    wp = f2.find("PlatformSpecificWaitPid")
+    cmpm = re.search(r"(?:EINTR\s*==\s*errno|errno\s*==\s*EINTR)[^;{]*\{?\s*if\s*\(\s*\w+\s*(>=|>)\s*(\d+)\s*\)", f2)
+    lits = list(re.finditer(LIT, f2))
+    if wp < 0 or not cmpm or len(lits) != 3:
+        h.errors.append("C11: runner: waitpid call, EINTR retry comparison or the three failure texts (fork, EINTR overrun, waitpid) not found")
         return ""
-    for name, s in zip(["msg_exit", "msg_killed", "msg_stopped", "msg_fork", "msg_eintr", "msg_wait"], l1 + l2):
-        u = unescape(s)
+    before = [m for m in lits if m.start() < wp]
+    after_cmp = [m for m in lits if m.start() > cmpm.end()]
+    if len(before) != 1 or not after_cmp:
+        h.errors.append("C11: runner: cannot tell the fork / EINTR / waitpid texts apart")
+        return ""
+    texts["msg_fork"] = before[0].group(1)
+    texts["msg_eintr"] = after_cmp[0].group(1)
+    rest = [m for m in lits if m is not before[0] and m is not after_cmp[0]]
+    texts["msg_wait"] = rest[0].group(1)
+    for name in ["msg_exit", "msg_killed", "msg_stopped", "msg_fork", "msg_eintr", "msg_wait"]:
+        u = unescape(texts[name])
         t += "(* %s *)\nDefinition %s : list N := %s.\n" % (cm(u), name, h.coq_bytes(u.encode()))
     m = re.search(r"EINTR\s*==\s*errno|errno\s*==\s*EINTR", f2)
     if not m:
